@@ -14,6 +14,9 @@ import (
 	"github.com/resonatehq/resonate/internal/kernel/bus"
 	"github.com/resonatehq/resonate/internal/kernel/t_api"
 	"github.com/resonatehq/resonate/internal/vx"
+	"github.com/resonatehq/resonate/pkg/idempotency"
+	"github.com/resonatehq/resonate/pkg/promise"
+	"github.com/resonatehq/resonate/pkg/schedule"
 )
 
 type vhKernel struct {
@@ -75,28 +78,170 @@ func vhCheck(k *vhKernel, kind t_api.Kind) {
 	}
 }
 
-func VH_H_ReadPromise()   { s, k := vhServer(); s.readPromise(vx.GinContext("GET", "id")); vhCheck(k, t_api.ReadPromise) }
+// ---- C20 (HTTP half): what reaches the kernel is exactly what the client sent, what the client gets is
+// exactly the kernel's object
+
+func vhValueEq(a, b promise.Value) bool {
+	return vx.And(vx.BytesEq(a.Data, b.Data), vx.MapEq(a.Headers, b.Headers))
+}
+
+func vhIkeyEq(a, b *idempotency.Key) bool {
+	if a == nil || b == nil {
+		return a == nil && b == nil
+	}
+	return *a == *b
+}
+
+func VH_H_ReadPromise() {
+	s, k := vhServer()
+	s.readPromise(vx.GinContext("GET", "id"))
+	vhCheck(k, t_api.ReadPromise)
+	if k.calls == 1 {
+		vx.Assert(k.req.ReadPromise.Id == vx.GinParamSent("id"), "C20:http-path-id-reaches-the-kernel-unaltered")
+		if k.err == nil && k.res.ReadPromise.Status.IsSuccessful() {
+			p, ok := vx.HttpBody(0).(*promise.Promise)
+			vx.Assert(ok && p == k.res.ReadPromise.Promise, "C20:http-reply-is-the-kernel-promise")
+		}
+	}
+}
 func VH_H_SearchPromises() { s, k := vhServer(); s.searchPromises(vx.GinContext("GET")); vhCheck(k, t_api.SearchPromises) }
 func VH_H_CreatePromise() {
 	s, k := vhServer()
 	s.createPromise(vx.GinContext("POST"))
 	vhCheck(k, t_api.CreatePromise)
-	if k.calls == 1 && k.err == nil && k.res.CreatePromise.Status.IsSuccessful() {
-		p, _ := vx.HttpBody(0).(interface{ GetId() string })
-		_ = p
+	if k.calls == 1 {
+		b, _ := vx.GinBound("JSON", 0).(*createPromiseBody)
+		h, _ := vx.GinBound("Header", 0).(*createPromiseHeader)
+		q := k.req.CreatePromise
+		vx.Assert(b != nil && h != nil, "C20:http-kernel-called-only-with-a-bound-request")
+		vx.Assert(q.Id == b.Id && q.Timeout == b.Timeout && q.Strict == h.Strict && vx.MapEq(q.Tags, b.Tags) && vhValueEq(q.Param, b.Param) && vhIkeyEq(q.IdempotencyKey, h.IdempotencyKey), "C20:http-request-fields-copied")
+		if k.err == nil && k.res.CreatePromise.Status.IsSuccessful() {
+			p, ok := vx.HttpBody(0).(*promise.Promise)
+			vx.Assert(ok && p == k.res.CreatePromise.Promise, "C20:http-reply-is-the-kernel-promise")
+		}
 	}
 }
-func VH_H_CreatePromiseAndTask() { s, k := vhServer(); s.createPromiseAndTask(vx.GinContext("POST")); vhCheck(k, t_api.CreatePromiseAndTask) }
-func VH_H_CompletePromise()      { s, k := vhServer(); s.completePromise(vx.GinContext("PATCH", "id")); vhCheck(k, t_api.CompletePromise) }
-func VH_H_CreateCallback()       { s, k := vhServer(); s.createCallback(vx.GinContext("POST")); vhCheck(k, t_api.CreateCallback) }
-func VH_H_CreateSubscription()   { s, k := vhServer(); s.createSubscription(vx.GinContext("POST")); vhCheck(k, t_api.CreateSubscription) }
-func VH_H_ReadSchedule()         { s, k := vhServer(); s.readSchedule(vx.GinContext("GET", "id")); vhCheck(k, t_api.ReadSchedule) }
-func VH_H_SearchSchedules()      { s, k := vhServer(); s.searchSchedules(vx.GinContext("GET")); vhCheck(k, t_api.SearchSchedules) }
-func VH_H_CreateSchedule()       { s, k := vhServer(); s.createSchedule(vx.GinContext("POST")); vhCheck(k, t_api.CreateSchedule) }
-func VH_H_DeleteSchedule()       { s, k := vhServer(); s.deleteSchedule(vx.GinContext("DELETE", "id")); vhCheck(k, t_api.DeleteSchedule) }
-func VH_H_AcquireLock()          { s, k := vhServer(); s.acquireLock(vx.GinContext("POST")); vhCheck(k, t_api.AcquireLock) }
-func VH_H_ReleaseLock()          { s, k := vhServer(); s.releaseLock(vx.GinContext("POST")); vhCheck(k, t_api.ReleaseLock) }
-func VH_H_HeartbeatLocks()       { s, k := vhServer(); s.heartbeatLocks(vx.GinContext("POST")); vhCheck(k, t_api.HeartbeatLocks) }
+func VH_H_CreatePromiseAndTask() {
+	s, k := vhServer()
+	s.createPromiseAndTask(vx.GinContext("POST"))
+	vhCheck(k, t_api.CreatePromiseAndTask)
+	if k.calls == 1 {
+		b, _ := vx.GinBound("JSON", 0).(*createPromiseAndTaskBody)
+		h, _ := vx.GinBound("Header", 0).(*createPromiseHeader)
+		q := k.req.CreatePromiseAndTask
+		vx.Assert(b != nil && h != nil && q.Promise != nil && q.Task != nil, "C20:http-kernel-called-only-with-a-bound-request")
+		vx.Assert(q.Promise.Id == b.Promise.Id && q.Promise.Timeout == b.Promise.Timeout && q.Promise.Strict == h.Strict && vx.MapEq(q.Promise.Tags, b.Promise.Tags) && vhValueEq(q.Promise.Param, b.Promise.Param) && vhIkeyEq(q.Promise.IdempotencyKey, h.IdempotencyKey), "C20:http-request-fields-copied")
+		vx.Assert(q.Task.PromiseId == b.Promise.Id && q.Task.ProcessId == b.Task.ProcessId && q.Task.Ttl == b.Task.Ttl && q.Task.Timeout == b.Promise.Timeout, "C20:http-task-fields-copied")
+	}
+}
+func VH_H_CompletePromise() {
+	s, k := vhServer()
+	s.completePromise(vx.GinContext("PATCH", "id"))
+	vhCheck(k, t_api.CompletePromise)
+	if k.calls == 1 {
+		b, _ := vx.GinBound("JSON", 0).(*completePromiseBody)
+		h, _ := vx.GinBound("Header", 0).(*completePromiseHeader)
+		q := k.req.CompletePromise
+		vx.Assert(b != nil && h != nil, "C20:http-kernel-called-only-with-a-bound-request")
+		vx.Assert(q.Id == vx.GinParamSent("id"), "C20:http-path-id-reaches-the-kernel-unaltered")
+		vx.Assert(q.State == b.State && q.Strict == h.Strict && vhValueEq(q.Value, b.Value) && vhIkeyEq(q.IdempotencyKey, h.IdempotencyKey), "C20:http-request-fields-copied")
+		if k.err == nil && k.res.CompletePromise.Status.IsSuccessful() {
+			p, ok := vx.HttpBody(0).(*promise.Promise)
+			vx.Assert(ok && p == k.res.CompletePromise.Promise, "C20:http-reply-is-the-kernel-promise")
+		}
+	}
+}
+func VH_H_CreateCallback() {
+	s, k := vhServer()
+	s.createCallback(vx.GinContext("POST"))
+	vhCheck(k, t_api.CreateCallback)
+	if k.calls == 1 {
+		b, _ := vx.GinBound("JSON", 0).(*createCallbackBody)
+		q := k.req.CreateCallback
+		vx.Assert(b != nil, "C20:http-kernel-called-only-with-a-bound-request")
+		vx.Assert(q.PromiseId == b.PromiseId && q.RootPromiseId == b.RootPromiseId && q.Timeout == b.Timeout && vx.BytesEq(q.Recv, b.Recv), "C20:http-request-fields-copied")
+	}
+}
+func VH_H_CreateSubscription() {
+	s, k := vhServer()
+	s.createSubscription(vx.GinContext("POST"))
+	vhCheck(k, t_api.CreateSubscription)
+	if k.calls == 1 {
+		b, _ := vx.GinBound("JSON", 0).(*createSubscriptionBody)
+		q := k.req.CreateSubscription
+		vx.Assert(b != nil, "C20:http-kernel-called-only-with-a-bound-request")
+		vx.Assert(q.Id == b.Id && q.PromiseId == b.PromiseId && q.Timeout == b.Timeout && vx.BytesEq(q.Recv, b.Recv), "C20:http-request-fields-copied")
+	}
+}
+func VH_H_ReadSchedule() {
+	s, k := vhServer()
+	s.readSchedule(vx.GinContext("GET", "id"))
+	vhCheck(k, t_api.ReadSchedule)
+	if k.calls == 1 {
+		vx.Assert(k.req.ReadSchedule.Id == vx.GinParamSent("id"), "C20:http-path-id-reaches-the-kernel-unaltered")
+		if k.err == nil && k.res.ReadSchedule.Status.IsSuccessful() {
+			p, ok := vx.HttpBody(0).(*schedule.Schedule)
+			vx.Assert(ok && p == k.res.ReadSchedule.Schedule, "C20:http-reply-is-the-kernel-schedule")
+		}
+	}
+}
+func VH_H_SearchSchedules() { s, k := vhServer(); s.searchSchedules(vx.GinContext("GET")); vhCheck(k, t_api.SearchSchedules) }
+func VH_H_CreateSchedule() {
+	s, k := vhServer()
+	s.createSchedule(vx.GinContext("POST"))
+	vhCheck(k, t_api.CreateSchedule)
+	if k.calls == 1 {
+		b, _ := vx.GinBound("JSON", 0).(*createScheduleBody)
+		h, _ := vx.GinBound("Header", 0).(*createScheduleHeader)
+		q := k.req.CreateSchedule
+		vx.Assert(b != nil && h != nil, "C20:http-kernel-called-only-with-a-bound-request")
+		vx.Assert(q.Id == b.Id && q.Description == b.Description && q.Cron == b.Cron && vx.MapEq(q.Tags, b.Tags) && q.PromiseId == b.PromiseId && q.PromiseTimeout == b.PromiseTimeout &&
+			vhValueEq(q.PromiseParam, b.PromiseParam) && vx.MapEq(q.PromiseTags, b.PromiseTags) && vhIkeyEq(q.IdempotencyKey, h.IdempotencyKey), "C20:http-request-fields-copied")
+		if k.err == nil && k.res.CreateSchedule.Status.IsSuccessful() {
+			p, ok := vx.HttpBody(0).(*schedule.Schedule)
+			vx.Assert(ok && p == k.res.CreateSchedule.Schedule, "C20:http-reply-is-the-kernel-schedule")
+		}
+	}
+}
+func VH_H_DeleteSchedule() {
+	s, k := vhServer()
+	s.deleteSchedule(vx.GinContext("DELETE", "id"))
+	vhCheck(k, t_api.DeleteSchedule)
+	if k.calls == 1 {
+		vx.Assert(k.req.DeleteSchedule.Id == vx.GinParamSent("id"), "C20:http-path-id-reaches-the-kernel-unaltered")
+	}
+}
+func VH_H_AcquireLock() {
+	s, k := vhServer()
+	s.acquireLock(vx.GinContext("POST"))
+	vhCheck(k, t_api.AcquireLock)
+	if k.calls == 1 {
+		b, _ := vx.GinBound("JSON", 0).(*acquireLockBody)
+		q := k.req.AcquireLock
+		vx.Assert(b != nil, "C20:http-kernel-called-only-with-a-bound-request")
+		vx.Assert(q.ResourceId == b.ResourceId && q.ExecutionId == b.ExecutionId && q.ProcessId == b.ProcessId && q.Ttl == b.Ttl, "C20:http-request-fields-copied")
+	}
+}
+func VH_H_ReleaseLock() {
+	s, k := vhServer()
+	s.releaseLock(vx.GinContext("POST"))
+	vhCheck(k, t_api.ReleaseLock)
+	if k.calls == 1 {
+		b, _ := vx.GinBound("JSON", 0).(*releaseLockBody)
+		q := k.req.ReleaseLock
+		vx.Assert(b != nil, "C20:http-kernel-called-only-with-a-bound-request")
+		vx.Assert(q.ResourceId == b.ResourceId && q.ExecutionId == b.ExecutionId, "C20:http-request-fields-copied")
+	}
+}
+func VH_H_HeartbeatLocks() {
+	s, k := vhServer()
+	s.heartbeatLocks(vx.GinContext("POST"))
+	vhCheck(k, t_api.HeartbeatLocks)
+	if k.calls == 1 {
+		b, _ := vx.GinBound("JSON", 0).(*heartbeatLocksBody)
+		vx.Assert(b != nil && k.req.HeartbeatLocks.ProcessId == b.ProcessId, "C20:http-request-fields-copied")
+	}
+}
 
 func vhMethod() string {
 	if vx.Choose(2) == 0 {
@@ -104,6 +249,34 @@ func vhMethod() string {
 	}
 	return "POST"
 }
-func VH_H_ClaimTask()      { s, k := vhServer(); s.claimTask(vx.GinContext(vhMethod())); vhCheck(k, t_api.ClaimTask) }
-func VH_H_CompleteTask()   { s, k := vhServer(); s.completeTask(vx.GinContext(vhMethod())); vhCheck(k, t_api.CompleteTask) }
+func VH_H_ClaimTask() {
+	s, k := vhServer()
+	m := vhMethod()
+	s.claimTask(vx.GinContext(m))
+	vhCheck(k, t_api.ClaimTask)
+	if k.calls == 1 {
+		q := k.req.ClaimTask
+		if m == "GET" {
+			vx.Assert(q.Id == vx.GinParamSent("id"), "C20:http-path-id-reaches-the-kernel-unaltered")
+		} else {
+			b, _ := vx.GinBound("JSON", 0).(*claimTaskBody)
+			vx.Assert(b != nil && q.Id == b.Id && q.Counter == b.Counter && q.ProcessId == b.ProcessId && q.Ttl == b.Ttl, "C20:http-request-fields-copied")
+		}
+	}
+}
+func VH_H_CompleteTask() {
+	s, k := vhServer()
+	m := vhMethod()
+	s.completeTask(vx.GinContext(m))
+	vhCheck(k, t_api.CompleteTask)
+	if k.calls == 1 {
+		q := k.req.CompleteTask
+		if m == "GET" {
+			vx.Assert(q.Id == vx.GinParamSent("id"), "C20:http-path-id-reaches-the-kernel-unaltered")
+		} else {
+			b, _ := vx.GinBound("JSON", 0).(*completeTaskBody)
+			vx.Assert(b != nil && q.Id == b.Id && q.Counter == b.Counter, "C20:http-request-fields-copied")
+		}
+	}
+}
 func VH_H_HeartbeatTasks() { s, k := vhServer(); s.heartbeatTasks(vx.GinContext(vhMethod())); vhCheck(k, t_api.HeartbeatTasks) }
